@@ -614,9 +614,11 @@ func (e *Evaluator) evalBinaryExpr(expr *ExprBinary) (*Cell, error) {
 		}
 		if member.Value.Tag == ValueNativeFn {
 			// methods live in cells shared by every value of that type, so the
-			// receiver goes on a copy
+			// receiver goes on a copy. the receiver is the value the method was
+			// looked up on, whatever is assigned to that variable before the call
 			bound := NewCell(member.Value)
-			bound.Value.Binding = &left.Value
+			receiver := left.Value
+			bound.Value.Binding = &receiver
 			return bound, nil
 		}
 
